@@ -3,6 +3,7 @@ package c15
 
 import (
 	"context"
+	"errors"
 	"fmt"
 	"regexp"
 	"strings"
@@ -359,6 +360,7 @@ func TestCheck(t *testing.T) {
 		r.Case(fmt.Sprintf("concurrent/%d", k), func(c *h.Case) { concurrentCase(c, k) })
 	}
 	r.Case("shared-code-handlers", func(c *h.Case) { sharedCode(c) })
+	r.Case("response-together-with-error", func(c *h.Case) { responseAndError(c) })
 }
 
 func exhaustive(c *h.Case, name string, onClient bool, items []item, first, maxLen int) {
@@ -620,10 +622,32 @@ func mkClosure(id string) core.InvokeHandler {
 	}
 }
 
+// twin: plugin objects that are distinct but have equal contents; which one ran is known from a
+// table keyed by the object's address.
+type twin struct {
+	kind string
+	opts []string
+}
+
+var twinIDs sync.Map
+
+func (p *twin) Handler(ctx context.Context, n string, a []interface{}, next core.NextInvokeHandler) ([]interface{}, error) {
+	id, _ := twinIDs.Load(p)
+	return invGeneric(id.(string), ctx, n, a, next)
+}
+
+func mkTwins() (core.PluginHandler, core.PluginHandler) {
+	a, b := &twin{"same", []string{"x"}}, &twin{"same", []string{"x"}}
+	twinIDs.Store(a, "instA")
+	twinIDs.Store(b, "instB")
+	return a, b
+}
+
 func sharedCode(c *h.Case) {
 	for variant, mk := range []func() (a, b core.PluginHandler){
 		func() (core.PluginHandler, core.PluginHandler) { return &counting{"instA"}, &counting{"instB"} },
 		func() (core.PluginHandler, core.PluginHandler) { return mkClosure("instA"), mkClosure("instB") },
+		mkTwins,
 	} {
 		s := newSys()
 		a, b := mk()
@@ -632,11 +656,96 @@ func sharedCode(c *h.Case) {
 		tr, _, _, _ := s.call()
 		c.R.Eval(1)
 		ids, _ := splitTrace(tr)
-		name := []string{"two-instances-of-one-plugin-type", "closures-of-one-literal"}[variant]
+		name := []string{"two-instances-of-one-plugin-type", "closures-of-one-literal", "two-plugin-objects-with-equal-contents"}[variant]
 		if strings.Join(ids, ",") != "instB" {
 			c.Violation("unuse-removes-handlers-sharing-code:"+name, fmt.Sprintf("Use(A, B); Unuse(A): the call went through %v, expected [instB]", ids), map[string]interface{}{"variant": name, "trace": tr})
 		}
 		s.close()
 		c.R.Distinct("shared|" + name)
+	}
+}
+
+// responseAndError: an inner IO handler that returns a response together with an error, and an
+// inner invoke handler that returns results together with an error: the handlers outside it
+// must be handed exactly that pair on the way back.
+func responseAndError(c *h.Case) {
+	r := c.R
+	for _, side := range []string{"client", "service"} {
+		for depth := 1; depth <= 3; depth++ {
+			for _, level := range []string{"io", "invoke"} {
+				s := newSys()
+				type seen struct {
+					n   int
+					err string
+				}
+				var mu sync.Mutex
+				var ioSeen, invSeen []seen
+				ioOuter := func(ctx context.Context, req []byte, next core.NextIOHandler) ([]byte, error) {
+					resp, err := next(ctx, req)
+					mu.Lock()
+					ioSeen = append(ioSeen, seen{len(resp), fmt.Sprint(err)})
+					mu.Unlock()
+					return resp, err
+				}
+				ioInner := func(ctx context.Context, req []byte, next core.NextIOHandler) ([]byte, error) {
+					resp, _ := next(ctx, req)
+					return resp, errors.New("flagged by the inner IO handler")
+				}
+				invOuter := func(ctx context.Context, n string, a []interface{}, next core.NextInvokeHandler) ([]interface{}, error) {
+					res, err := next(ctx, n, a)
+					mu.Lock()
+					invSeen = append(invSeen, seen{len(res), fmt.Sprint(err)})
+					mu.Unlock()
+					return res, err
+				}
+				invInner := func(ctx context.Context, n string, a []interface{}, next core.NextInvokeHandler) ([]interface{}, error) {
+					res, _ := next(ctx, n, a)
+					return res, errors.New("flagged by the inner invoke handler")
+				}
+				var hs []core.PluginHandler
+				for i := 0; i < depth; i++ {
+					hs = append(hs, core.IOHandler(ioOuter), core.InvokeHandler(invOuter))
+				}
+				// one level at a time: an error at the invoke level legitimately leaves the IO level without a response
+				if level == "io" {
+					hs = append(hs, core.IOHandler(ioInner))
+				} else {
+					hs = append(hs, core.InvokeHandler(invInner))
+				}
+				if side == "client" {
+					s.client.Use(hs...)
+				} else {
+					s.service.Use(hs...)
+				}
+				s.call()
+				r.Eval(1)
+				mu.Lock()
+				rep := map[string]interface{}{"side": side, "outer_handlers": depth, "io_seen": fmt.Sprint(ioSeen), "invoke_seen": fmt.Sprint(invSeen)}
+				if len(ioSeen) != depth || len(invSeen) != depth {
+					c.Violation("handlers-not-run-once:response-with-error:"+side, fmt.Sprintf("%d outer IO and invoke handlers each: IO handlers ran %d times, invoke handlers %d times", depth, len(ioSeen), len(invSeen)), rep)
+				}
+				for i, x := range ioSeen {
+					if level != "io" {
+						break
+					}
+					if x.n == 0 || x.err != "flagged by the inner IO handler" {
+						c.Violation("response-dropped-on-the-way-back:io:"+side, fmt.Sprintf("the inner IO handler returned a response together with an error; outer handler %d was handed %d bytes and error %q", i, x.n, x.err), rep)
+						break
+					}
+				}
+				for i, x := range invSeen {
+					if level != "invoke" {
+						break
+					}
+					if x.n == 0 || x.err != "flagged by the inner invoke handler" {
+						c.Violation("results-dropped-on-the-way-back:invoke:"+side, fmt.Sprintf("the inner invoke handler returned results together with an error; outer handler %d was handed %d results and error %q", i, x.n, x.err), rep)
+						break
+					}
+				}
+				mu.Unlock()
+				s.close()
+				r.Distinct(fmt.Sprintf("response-and-error|%s|%d|%s", side, depth, level))
+			}
+		}
 	}
 }
